@@ -61,3 +61,19 @@ CASES += [
     dict(id='c06-eq-keyvalue-add-emplace', prop='C06', file=KV, expect=None, count=4,
          old="      mDestCont.insert( { key, value});", new="      mDestCont.emplace( key, value);"),
 ]
+
+CASES += [
+    dict(id='c06-set-contains-compares-with-begin', prop='C06', file=CA, expect='R*',
+         old="      return mDestCont.find( value) != mDestCont.end();\n   } // ContainerAdapter< std::set< T>>::contains",
+         new="      return mDestCont.find( value) != mDestCont.begin();\n   } // ContainerAdapter< std::set< T>>::contains"),
+    dict(id='c06-multiset-contains-looks-for-default-value', prop='C06', file=CA, expect='R*',
+         old="      return mDestCont.find( value) != mDestCont.end();\n   } // ContainerAdapter< std::multiset< T>>::contains",
+         new="      return mDestCont.find( T()) != mDestCont.end();\n   } // ContainerAdapter< std::multiset< T>>::contains"),
+]
+
+CASES += [
+    dict(id='c06-std-array-sorts-whole-array', prop='C06', file=T, expect='R1',
+         old="      std::sort( mDestVar.begin(), mDestVar.begin() + mIndex);", new="      std::sort( mDestVar.begin(), mDestVar.end());"),
+    dict(id='c06-eq-std-array-sort-range-by-next', prop='C06', file=T, expect=None,
+         old="      std::sort( mDestVar.begin(), mDestVar.begin() + mIndex);", new="      std::sort( mDestVar.begin(), std::next( mDestVar.begin(), mIndex));"),
+]
